@@ -68,7 +68,32 @@ type Property struct {
 	Kind        string // "sufficient" / "necessary clauses"
 	Explanation string // what the rules decide and what they do not
 	Assumptions []string
-	Tech        string // a few words naming the deciding method
+	Tech        string   // a few words naming the deciding method
+	Core        []string // rules without which the property is not claimed
+}
+
+// finalizeProps drops rules that are not built (never left as a promise) and un-claims properties whose core rule is missing.
+func finalizeProps() {
+	for id, p := range properties {
+		var keep []string
+		missingCore := ""
+		for _, rid := range p.Rules {
+			if rules[rid] != nil {
+				keep = append(keep, rid)
+				continue
+			}
+			for _, c := range p.Core {
+				if c == rid {
+					missingCore = rid
+				}
+			}
+		}
+		p.Rules = keep
+		if missingCore != "" || len(keep) == 0 {
+			delete(properties, id)
+			naReasons[id] = "the deciding rule " + missingCore + " is not built; the remaining rules do not decide a clause of this property on their own"
+		}
+	}
 }
 
 var properties = map[string]*Property{}
@@ -159,16 +184,16 @@ type runConfig struct {
 }
 
 type configRun struct {
-	Name        string
-	Tags        string
-	UseCHA      bool
-	Packages    int
-	Functions   int
-	Reachable   int
-	CGNodes     int
-	Results     []*RuleResult
-	CtlFired    map[string]int
-	LoadErr     string
+	Name      string
+	Tags      string
+	UseCHA    bool
+	Packages  int
+	Functions int
+	Reachable int
+	CGNodes   int
+	Results   []*RuleResult
+	CtlFired  map[string]int
+	LoadErr   string
 }
 
 func hashKey(s string) string {
